@@ -12,6 +12,7 @@ CONSTANTS
   HookFailChoices <- NoHookFail
   LaunchToParent = FALSE
   ResumeOnDeath = TRUE
+  PausedAtBirth = TRUE
   LaunchInline = TRUE
 
 INVARIANT Emit
